@@ -46,6 +46,9 @@ GapDirection == /\ TR.mode = "preserve" => \A j \in 1..Len(TR.gaps) : TR.gaps[j]
                 /\ TR.mode = "tight" => \A j \in 1..Len(TR.gaps) : TR.gaps[j].g1 <= TR.gaps[j].g0
 Tightness == /\ TR.mode = "loose" => \A j \in 1..Len(TR.lists) : TR.lists[j].n >= 2 => ~TR.lists[j].t1
              /\ TR.mode = "tight" => \A j \in 1..Len(TR.lists) : (TR.lists[j].n >= 2 /\ TR.lists[j].single) => TR.lists[j].t1
+             \* a list with an item that holds several blocks is not tightened: it reads as authored, or as preserve renders it
+             \* (where preserve itself deviates from the input that is C01's finding, not an effect of the mode)
+             /\ TR.mode = "tight" => \A j \in 1..Len(TR.lists) : ~TR.lists[j].single => (TR.lists[j].t1 = TR.lists[j].tin \/ TR.lists[j].t1 = TR.lists[j].t0)
              /\ TR.mode = "preserve" => \A j \in 1..Len(TR.lists) : TR.lists[j].t1 = TR.lists[j].t0
 SpacingVec == <<TR.same_nonblank, GapsOnlyBeforeItems, GapDirection, Tightness>>
 SpacingProp == TR.same_nonblank /\ GapsOnlyBeforeItems /\ GapDirection /\ Tightness
